@@ -4,8 +4,9 @@ import Asn1cModel.Impl.OpenType
   Line-protocol ops for Impl.OpenType (property C18).
     c18tbl <items>                      items ';'-separated: `e` | `u:<id>:<ty>,<id>:<ty>…`
     c18sel <tbl> <id>                   tbl: `<id>:<ty>,…` | `-`
-    c18get <ber|uper|xer> <tbl> <nelems> <ptr 0|1> <specs> <id> <outcomes>
-                                        specs: one of n|w|s per type index; outcomes: one of o|m|f per type index
+    c18get <ber|uper|xer> <tbl> <nelems> <ptr 0|1> <id> <outcomes>
+                                        outcomes: one of o|m|f per type index
+                                        => `ok <presence>` | `<fail|more|crash> <null|presence>` (member storage afterwards)
     c18oput <bits>                      uper_open_type_put of a stand-alone encoding
     c18oget <k> <bits>                  uper_open_type_get with a row decoder that needs exactly k bits
 -/
@@ -28,12 +29,6 @@ def parseItem (s : String) : Option (SetItem Int) :=
 def showRows (t : Table Int) : String :=
   if t.isEmpty then "-" else ",".intercalate (t.map fun r => s!"{r.id}:{r.ty}")
 
-def specOf (s : String) (ty : Nat) : SpecShape :=
-  match s.toList[ty]? with
-  | some 'n' => .null
-  | some 'w' => .wild
-  | _ => .sized
-
 def outcomeOf (s : String) (ty : Nat) : Char := (s.toList[ty]?).getD 'f'
 
 def showRes : DecRes (OpenVal Unit) → String
@@ -41,6 +36,12 @@ def showRes : DecRes (OpenVal Unit) → String
   | .more => "more"
   | .fail => "fail"
   | .crash => "crash"
+
+/-- outcome + the member's storage after the call (`slotAfter`): `ok 2` | `fail null` | `fail 0` | … -/
+def showGet (m : Member) (r : DecRes (OpenVal Unit)) : String :=
+  match r with
+  | .ok _ _ => showRes r
+  | _ => showRes r ++ " " ++ (match slotAfter m r with | none => "null" | some p => toString p)
 
 def run : Handler
   | ["c18tbl", items] => some <|
@@ -55,19 +56,19 @@ def run : Handler
         let s := select t i
         s!"{s.presence} {match s.ty with | some ty => toString ty | none => "-"}"
       | _, _ => bad
-  | ["c18get", syn, tbl, nelems, ptr, specs, id, outs] => some <|
+  | ["c18get", syn, tbl, nelems, ptr, id, outs] => some <|
       match parseRows tbl, parseNat nelems, parseInt id with
       | some t, some n, some i =>
-        let m : Member := ⟨n, ptr == "1", specOf specs⟩
+        let m : Member := ⟨n, ptr == "1"⟩
         match syn with
         | "ber" =>
-          showRes (berGet t m (fun ty (_ : Bytes) =>
+          showGet m (berGet t m (fun ty (_ : Bytes) =>
             match outcomeOf outs ty with | 'o' => .ok () 1 | 'm' => .more | _ => .fail) i [0])
         | "uper" =>
-          showRes (otGet t m false (fun ty (_ : Bits) =>
+          showGet m (otGet t m false (fun ty (_ : Bits) =>
             match outcomeOf outs ty with | 'o' => .ok () 1 | 'm' => .more | _ => .fail) i [false])
         | "xer" =>
-          showRes (xerGet t m "value" (fun ty _ =>
+          showGet m (xerGet t m "value" (fun ty _ =>
             match outcomeOf outs ty with | 'o' => .ok () 1 | 'm' => .more | _ => .fail) i
             [.text, .opening "value", .body 0, .text, .closing "value"])
         | _ => bad
